@@ -112,6 +112,7 @@ pub fn run_check(ctx: &Ctx) -> Outcome {
         }
         "C05" => {
             check_c05(ctx, &mut out);
+            check_long_runs(ctx, &mut out);
             run_nostd_child(ctx, &mut out);
         }
         "C06" => {
@@ -216,6 +217,12 @@ pub fn replay(prop: &str, engine: &str, case: &Value) -> Result<Option<Violation
                 check_2q_quota_grid_for(&ctx, &mut o, pid);
             }
             Ok(o.violations.first().map(|(_, m)| Violation { prop: pid, step: 0, msg: m.clone(), sig: format!("ctor/-/{}", engine) }))
+        }
+        "longrun" => {
+            let ctx = Ctx { id: "C05".into(), tier: Tier::Thorough, seed: 1, verif_dir: std::env::var("VERIF_DIR").unwrap_or_else(|_| "/verif".into()), known: Default::default(), workers: 4, scale: 1.0 };
+            let mut o = Outcome::default();
+            check_long_runs(&ctx, &mut o);
+            Ok(o.violations.first().map(|(_, m)| Violation { prop: "C05", step: 0, msg: m.clone(), sig: "longrun/-/panic".into() }))
         }
         "conc" => {
             let (_, bad) = crate::conc::run_conc(false);
